@@ -30,7 +30,6 @@ var witnessName = map[maskSet]string{
 	mOrphanSecret:     "donor-has-peering-secrets-row-without-peering",
 	mStaleKindName:    "donor-has-unbacked-kind-service-name-after-an-instance-was-re-registered-under-another-name-kind-or-destination",
 	mWildcardUnbacked: "donor-has-wildcard-gateway-mapping",
-	mStaleDestName:    "donor-has-destination-kind-service-name-without-a-service-defaults-destination",
 	mStaleHash:        "donor-has-config-entry-whose-stored-hash-is-not-the-hash-of-its-content",
 	mUnheldUUID:       "donor-secret-uuid-list-differs-from-the-ids-held-by-the-secrets-rows-of-its-non-dialing-peerings",
 	mNodeSpelling:     "donor-has-service-row-whose-node-name-spelling-differs-from-its-node-row",
@@ -330,10 +329,10 @@ func computeWitness(st *state.Store, hf histFacts) *witness {
 			}
 		case *state.KindServiceName:
 			if !env.kinds[strings.ToLower(string(v.Kind)+"\x00"+v.Service.Name)] {
-				if v.Kind == structs.ServiceKindDestination {
-					w.masks |= mStaleDestName
-					w.staleKinds[strings.ToLower(string(v.Kind))] = true
-				} else if renamed {
+				// (a "destination" row is backed by its service-defaults entry; an unbacked one used to
+				// stay behind when the entry lost its Destination: repaired by 0d0f3e6, so it is
+				// never rendered leniently and a difference there is a violation)
+				if v.Kind != structs.ServiceKindDestination && renamed {
 					w.masks |= mStaleKindName
 					w.staleKinds[strings.ToLower(string(v.Kind))] = true
 				}
@@ -435,11 +434,7 @@ func (w *witness) indexRowRule(key string) maskSet {
 		if kind == "typical" {
 			kind = "" // structs.ServiceKindTypical is the empty string; the index row spells it out
 		}
-		if kind == string(structs.ServiceKindDestination) {
-			if w.has(mStaleDestName) {
-				return mStaleDestName
-			}
-		} else if w.has(mStaleKindName) && w.staleKinds[kind] {
+		if kind != string(structs.ServiceKindDestination) && w.has(mStaleKindName) && w.staleKinds[kind] {
 			return mStaleKindName
 		}
 	case key == "gateway-services":
@@ -568,11 +563,7 @@ func (d *storeDump) lenient(table string, w *witness, refresh bool) []string {
 		case "kind-service-names":
 			ksn := item.(*state.KindServiceName)
 			if !d.env.kinds[strings.ToLower(string(ksn.Kind)+"\x00"+ksn.Service.Name)] {
-				if ksn.Kind == structs.ServiceKindDestination {
-					if w.has(mStaleDestName) {
-						continue
-					}
-				} else if w.has(mStaleKindName) && w.staleKinds[strings.ToLower(string(ksn.Kind))] {
+				if ksn.Kind != structs.ServiceKindDestination && w.has(mStaleKindName) && w.staleKinds[strings.ToLower(string(ksn.Kind))] {
 					continue
 				}
 			}
@@ -651,14 +642,8 @@ func tableFinding(d tableDiff, w *witness) maskSet {
 		}
 		return mOrphanSecret
 	case "kind-service-names":
-		if w.has(mNameSpelling) && !w.has(mStaleKindName) && !w.has(mStaleDestName) {
+		if w.has(mNameSpelling) && !w.has(mStaleKindName) {
 			return mNameSpelling
-		}
-		if w.has(mStaleDestName) && !w.has(mStaleKindName) {
-			return mStaleDestName
-		}
-		if w.has(mStaleDestName) && strings.Contains(d.Donor+d.Other, `Kind:"destination"`) {
-			return mStaleDestName
 		}
 		return mStaleKindName
 	}
@@ -812,19 +797,13 @@ func queryRule(name string, w *witness) (idxMasks maskSet, resultMask maskSet) {
 			resultMask = mNameSpelling // ... in whichever spelling the kind-service-names row has
 		case w.has(mStaleKindName):
 			resultMask = mStaleKindName // intention-derived up/downstreams range over the kind-service-names rows
-		case w.has(mStaleDestName):
-			resultMask = mStaleDestName
 		case w.has(mWildcardUnbacked):
 			resultMask = mWildcardUnbacked // upstream/downstream sets are read off wildcard-derived rows
 		case w.has(mTopologyStamp) && w.leftover[arg]:
 			resultMask = mTopologyStamp // ... and off left-over proxy rows
 		}
 	case "ServiceNamesOfKind":
-		if arg == string(structs.ServiceKindDestination) {
-			if w.has(mStaleDestName) {
-				idxMasks |= mStaleDestName
-			}
-		} else if w.has(mStaleKindName) && w.staleKinds[arg] {
+		if arg != string(structs.ServiceKindDestination) && w.has(mStaleKindName) && w.staleKinds[arg] {
 			idxMasks |= mStaleKindName
 		}
 	}
@@ -848,7 +827,7 @@ func (q *queryResult) render(w *witness, refresh bool) string {
 			if w.has(mNameSpelling) && w.variants[strings.ToLower(n)] {
 				n = strings.ToLower(n)
 			}
-			if idxMasks&(mStaleKindName|mStaleDestName) == 0 || kn.Backed[i] {
+			if idxMasks&mStaleKindName == 0 || kn.Backed[i] {
 				names = append(names, n)
 			}
 		}
